@@ -12,6 +12,8 @@ package main
 import (
 	"fmt"
 
+	"github.com/bradenaw/juniper/container/deque"
+
 	"verif/internal/dq"
 	"verif/internal/seqx"
 	"verif/internal/vx"
@@ -136,6 +138,136 @@ func bigSeeds() [][]seqx.Op {
 	return seeds
 }
 
+// scale drives one real deque next to a two-stack model (linear time) and observes it in full at the
+// sizes where index arithmetic narrower than int would wrap.
+func scale(n int) *seqx.Viol {
+	var q deque.Deque[int]
+	var fp, bp []int // contents = reverse(fp[fpLo:]) ++ bp[bpLo:]
+	fpLo, bpLo := 0, 0
+	size := func() int { return len(fp) - fpLo + len(bp) - bpLo }
+	at := func(i int) int {
+		nf := len(fp) - fpLo
+		if i < nf {
+			return fp[len(fp)-1-i]
+		}
+		return bp[bpLo+i-nf]
+	}
+	next := 0
+	fail := func(sig, format string, a ...any) *seqx.Viol {
+		return &seqx.Viol{Sig: "scale/" + sig, Detail: fmt.Sprintf("with %d items: ", size()) + fmt.Sprintf(format, a...)}
+	}
+	observe := func(what string) *seqx.Viol {
+		m := size()
+		if q.Len() != m {
+			return fail("len", "%s: Len()=%d, model %d", what, q.Len(), m)
+		}
+		if m > 0 && (q.Front() != at(0) || q.Back() != at(m-1)) {
+			return fail("front-back", "%s: Front/Back = %d/%d, model %d/%d", what, q.Front(), q.Back(), at(0), at(m-1))
+		}
+		for i := 0; i < m; i++ {
+			if got := q.Item(i); got != at(i) {
+				return fail("item", "%s: Item(%d)=%d, model %d", what, i, got, at(i))
+			}
+		}
+		it := q.Iterate()
+		for i := 0; i <= m; i++ {
+			x, ok := it.Next()
+			if ok != (i < m) || (ok && x != at(i)) {
+				return fail("iterate", "%s: Iterate item #%d = (%d,%v), model length %d", what, i, x, ok, m)
+			}
+		}
+		st, slots := q.VerifState(), q.VerifSlots()
+		nonzero := 0
+		for _, x := range slots {
+			if x != 0 {
+				nonzero++
+			}
+		}
+		if nonzero != m { // (all model items are non-zero)
+			return fail("retention", "%s: %d raw slots are occupied, %d items are held (cap %d)", what, nonzero, m, st.Cap)
+		}
+		return nil
+	}
+	checkAt := map[int]bool{255: true, 256: true, 257: true, 65535: true, 65536: true, 65537: true, n: true, 0: true}
+	var viol *seqx.Viol
+	popFront := func() {
+		var want int
+		if len(fp) > fpLo {
+			want = fp[len(fp)-1]
+			fp = fp[:len(fp)-1]
+		} else {
+			want = bp[bpLo]
+			bpLo++
+		}
+		if got := q.PopFront(); got != want && viol == nil {
+			viol = fail("wrong-item", "PopFront returned %d, model %d", got, want)
+		}
+	}
+	popBack := func() {
+		var want int
+		if len(bp) > bpLo {
+			want = bp[len(bp)-1]
+			bp = bp[:len(bp)-1]
+		} else {
+			want = fp[fpLo]
+			fpLo++
+		}
+		if got := q.PopBack(); got != want && viol == nil {
+			viol = fail("wrong-item", "PopBack returned %d, model %d", got, want)
+		}
+	}
+	if p := vx.Catch(func() {
+		step := 0
+		for size() < n && viol == nil {
+			step++
+			next++
+			switch step % 5 {
+			case 0, 1:
+				q.PushBack(next)
+				bp = append(bp, next)
+			case 2, 3:
+				q.PushFront(next)
+				fp = append(fp, next)
+			default:
+				popFront() // keeps the ring's front moving
+			}
+			if checkAt[size()] && step%5 != 4 && viol == nil {
+				what := fmt.Sprintf("grown to %d items", size())
+				if viol = observe(what); viol != nil {
+					return
+				}
+				q.Shrink(0)
+				if viol = observe(what + " then Shrink(0)"); viol != nil {
+					return
+				}
+				q.Grow(3)
+				if viol = observe(what + " then Grow(3)"); viol != nil {
+					return
+				}
+				q.Shrink(1)
+				if viol = observe(what + " then Shrink(1)"); viol != nil {
+					return
+				}
+			}
+		}
+		for size() > 0 && viol == nil {
+			if size()%2 == 0 {
+				popFront()
+			} else {
+				popBack()
+			}
+			if checkAt[size()] && viol == nil {
+				if viol = observe(fmt.Sprintf("drained to %d items", size())); viol != nil {
+					return
+				}
+			}
+		}
+	}); p != nil {
+		return fail("panic", "%v", p)
+	}
+	return viol
+}
+
 func readablePath(path []seqx.Op) []string {
 	_, r, _ := replay(path)
 	return r
@@ -206,6 +338,12 @@ func main() {
 		run.Violate(vx.Violation{Signature: v.Viol.Sig, Detail: fmt.Sprintf("%s; history %v", v.Viol.Detail, rd), Replay: map[string]any{"ops": v.Path}})
 	}
 	run.Set("large_seed_states", map[string]any{"seeds": len(bigSeeds()), "fill_sizes": []int{31, 32, 33, 63, 64, 65, 127, 128, 129, 255, 256, 511, 512, 513, 1024, 1025}, "rotated_fills": "32/33/48/64 items rotated by 1, n/2, n-1, n positions, also in buffers of odd capacity", "depth": 2, "sequences": stB.Transitions})
+	// one long history: sizes beyond 2^8 and 2^16 (narrow index arithmetic would wrap there)
+	if v := scale(70000); v != nil {
+		run.Violate(vx.Violation{Signature: v.Sig, Detail: v.Detail, Replay: map[string]any{"ops": []seqx.Op{}, "mode": "scale"}})
+	}
+	run.AddCounts(1, 3*70000, 3*70000)
+	run.Set("scale", "one deque grown to 70 000 items through PushBack/PushFront with pops in between (so the ring wraps), full observation at 255, 256, 257, 65535, 65536, 65537 and 70 000 items, Shrink(0) and Grow at those sizes, then drained from both ends")
 	run.Set("capacity_bound", maxCap)
 	run.Set("bfs_depth", st.MaxDepth)
 	run.Set("states_per_depth", st.PerDepth)
